@@ -279,10 +279,17 @@ pub fn run(s: &mut Session, ctx: &Ctx) {
                         }
                         // make every colour opaque 8-bit as distinct_colors does for generated ones,
                         // but keep translucent / HSL-float ones among the fixed colours
+                        // ... in two runs out of three; in the third the free positions start with
+                        // arbitrary (translucent, HSL-float) colours: whatever replaces them must still
+                        // be opaque 8-bit
+                        let arbitrary_start = rng.below(3) == 0;
                         for (i, c) in colors.iter_mut().enumerate() {
-                            if i >= num_fixed {
+                            if i >= num_fixed && !arbitrary_start {
                                 let q = c.to_rgba();
                                 *c = Color::from_rgb(q.r, q.g, q.b);
+                            } else if i >= num_fixed && rng.below(2) == 0 {
+                                let q = c.to_rgba();
+                                *c = Color::from_rgba(q.r, q.g, q.b, *rng.pick(&[0.5, 0.25, 0.0, 0.999]));
                             }
                         }
                         let case = SaCase {
